@@ -69,7 +69,7 @@ func c07Build(id int, raw json.RawMessage) *Job {
 	if json.Unmarshal(raw, &tc) != nil {
 		return nil
 	}
-	r := scRenderProg(tc.Items)
+	r := scRenderMode(tc.Items, scModeOf(raw, scSeed))
 	pc := &proto.Case{ID: id, Files: r.files(), Init: json.RawMessage(allOnLocal)}
 	return &Job{PC: pc, Data: &c07Data{&tc, r}}
 }
@@ -131,11 +131,11 @@ func c07Judge(c *Ctx, j *Job, res *proto.Result) {
 			laterAny := true // every definition is textually later in the same file (possibly inside a function)
 			for _, g := range defs {
 				gd := d.r.DeclAt[g.ID]
-				if !(g.File-1 == o.File && gd != nil && gd.Line > o.Line) {
+				if !(g.File-1 == o.File && gd != nil && occAfter(gd, o)) {
 					laterAny = false
 				}
 				// "top level" = outside any function body (a definition inside a plain block still runs in file order)
-				if !(g.File-1 == o.File && gd != nil && !d.tc.Items[gd.Item].InFn && gd.Line > o.Line) {
+				if !(g.File-1 == o.File && gd != nil && !d.tc.Items[gd.Item].InFn && occAfter(gd, o)) {
 					later = false
 				}
 			}
@@ -146,7 +146,7 @@ func c07Judge(c *Ctx, j *Job, res *proto.Result) {
 				gd := d.r.DeclAt[g.ID]
 				if g.File-1 == o.File {
 					same++
-					if gd != nil && gd.Line > o.Line {
+					if gd != nil && occAfter(gd, o) {
 						sameLater++
 					}
 				} else {
@@ -155,6 +155,17 @@ func c07Judge(c *Ctx, j *Job, res *proto.Result) {
 			}
 			if other > 0 && same > 0 && same == sameLater {
 				devPred["3@"+pos] = "Dev_GlobalDefinedInTwoFilesSplit"
+			}
+			sameStat := false
+			for _, g := range defs {
+				if gd := d.r.DeclAt[g.ID]; gd != nil && gd.Item == o.Item {
+					sameStat = true
+				}
+			}
+			if sameStat {
+				// the read sits in the right-hand side of the assignment that defines the global: it is evaluated before
+				// the definition takes effect although it follows it textually -> "defined later" is not settled (UNSPECIFIED)
+				may["3@"+pos] = true
 			}
 			if !later && laterAny {
 				// the only definitions come later but inside function bodies: the statement's type-3 clause speaks of
@@ -227,4 +238,9 @@ func checkC07(c *Ctx) {
 	if surveyMode {
 		sv.dump()
 	}
+}
+
+// occAfter: a comes textually after b in the same file.
+func occAfter(a, b *occ) bool {
+	return a.Line > b.Line || (a.Line == b.Line && a.Col > b.Col)
 }
